@@ -101,7 +101,8 @@ func runC05(w *W) {
 		}
 	}
 	nRelayouts := w.pickN(3, 12)
-	total := w.pickN(9000, 2*len(pool))
+	strat := stratifiedCorpus(stmts, 3, 4000) // every statement kind of the corpus, first
+	total := w.pickN(9000, 2*len(pool)) + len(strat)
 	for k := 0; k < total; k++ {
 		idx, mine := w.Case()
 		if !mine {
@@ -109,8 +110,10 @@ func runC05(w *W) {
 		}
 		r := NewRng(w.Seed, uint64(idx), 5)
 		var src string
-		if w.Thorough() && k < len(pool) {
-			src = pool[k]
+		if k < len(strat) {
+			src = strat[k]
+		} else if w.Thorough() && k-len(strat) < len(pool) {
+			src = pool[k-len(strat)]
 		} else if r.Chance(3, 4) {
 			src = pool[r.Intn(len(pool))]
 			if r.Chance(1, 4) { // difficult leaves (strings with escapes / line breaks, quoted identifiers, big numbers)
@@ -223,6 +226,9 @@ func runC05(w *W) {
 				}
 			}
 			tail := src[spans[len(spans)-1].End:]
+			if r.Chance(1, 4) { // trailing semicolons are layout too: drop the statement's own, so that it ends at the end of input
+				tail = strings.ReplaceAll(tail, ";", "")
+			}
 			sb.WriteString(tail)
 			// trailing semicolons (only after a newline, in case the statement ends in a line comment)
 			switch r.Intn(5) {
